@@ -1030,6 +1030,15 @@ class Main(Unit):
                                   ('hex', 'hex', False), ('reverse', 'rev', False)):
                 P.prove(Iff(truth(field(cfg, fld)), Not(ns[opt]) if neg else ns[opt]),
                         "option --%s sets exactly Config.%s" % (opt.replace('_', '-'), fld))
+            # look-up arguments reach the mode exactly as given (considerPEL tests their presence, the modes compare text)
+            lookups = (('pelID', 'pelID'), ('bmcID', 'bmcID'), ('plID', 'plid'), ('src', 'src'), ('src_exclude_file', 'srcExcludeFile'))
+            first = [o for o, _ in lookups if ns.get(o) is not None][:1]
+            for opt, fld in lookups:
+                if [opt] == first and acts and acts[0][0].startswith('parsePelFrom'):
+                    got = field(cfg, fld)
+                    P.prove((is_str(got) or isinstance(got, Choice)) and Eq(got, ns[opt]) is not False and
+                            (Eq(got, ns[opt]) is True or P.ctx.is_true(Eq(got, ns[opt]))),
+                            "look-up argument --%s reaches Config.%s unchanged (as text)" % (opt, fld))
             sev = ns['severities']
             wantsev = [T('severityGroupValues')[x] for x in (sev or [])]
             P.prove(isinstance(field(cfg, 'severities'), list), "Config.severities is a list (every PEL of the run is tested against it)")
